@@ -1732,7 +1732,9 @@ def rule_check_verdict(ctx, prop):
 
 
 def rule_logger_filter(ctx, prop):
-    """the exit status 2 of an error is stored by the logger's format closure, which only runs for records that pass the filter:
+    """NOT REGISTERED under any property since the F24 repair (the exit status no longer depends on the logger, so the order of
+    `filter` and `parse_env` cannot break C13 / C14 / C17 any more; kept for the record of how F24 was found).
+    the exit status 2 of an error is stored by the logger's format closure, which only runs for records that pass the filter:
     the level chosen by the program (Warn / Debug) must be the last word for the root filter, not the environment"""
     rep = Report(prop, "R-LOGFILTER", "in main, `Builder::filter(None, level)` is applied after the STYLUA_LOG directives are read (its receiver "
                                       "chain contains from_env / parse_env) and nothing that reads the environment comes after it: an error "
